@@ -321,7 +321,7 @@ static void cmd_gssvx(kv_t *K)
     for (i = 0; i < ldx * (nrhs ? nrhs : 1); ++i) x[i] = mk_scalar(-555.0, 0);
     G(Create_Dense_Matrix)(&B, n, nrhs, b, ldb, SLU_DN, SLU_DT, SLU_GE);
     G(Create_Dense_Matrix)(&X, n, nrhs, x, ldx, SLU_DN, SLU_DT, SLU_GE);
-    if (fact != FACTORED && !refact) destroy_LU();
+    if (fact != FACTORED && !refact && lwork != -1) destroy_LU();      /* a workspace query has no side effects: existing factors stay */
     if (autopct && fact != FACTORED && !refact) {
 	/* size the caller's workspace as a user would: ask the library (lwork = -1), take autopct % of its estimate */
 	superlumt_options_t q; superlu_memusage_t qm; int_t qinfo = 0; SuperMatrix QB, QX; equed_t qe = NOEQUIL; REAL qr = 0, qc = 0;
